@@ -101,6 +101,10 @@ impl tx3_tir::compile::Compiler for Compiler {
         Ok(eval)
     }
 
+    fn reset(&mut self) {
+        self.latest_tx_body = None;
+    }
+
     fn reduce_op(&self, op: Self::CompilerOp) -> Result<Self::Expression, ReduceError> {
         use tx3_tir::reduce::{Apply as _, Composite as _};
 
